@@ -52,6 +52,7 @@ type rawPeer struct {
 	conn    *grpc.ClientConn
 	cancel  context.CancelFunc
 	session atomic.Value
+	stallAfter int
 	recvd   atomic.Int64
 }
 
@@ -68,18 +69,23 @@ func dialRaw(addr string) (*grpc.ClientConn, rp.WALReplicationServiceClient, err
 // "noread" never calls Recv, "slow" reads one message per second, "noack" reads everything but never acknowledges,
 // "nack" reads and sends NegativeAcknowledge all the time, "ack" reads and acknowledges (healthy fake).
 func startRawPeer(addr, mode, listen string) (*rawPeer, error) {
+	return startRawPeerFrom(addr, mode, listen, 0)
+}
+
+// startRawPeerFrom: as startRawPeer, asking for the log from startSeq on (0 = from the beginning).
+func startRawPeerFrom(addr, mode, listen string, startSeq uint64) (*rawPeer, error) {
 	conn, cl, err := dialRaw(addr)
 	if err != nil {
 		return nil, err
 	}
 	ctx, cancel := context.WithCancel(context.Background())
-	st, err := cl.StreamWAL(ctx, &rp.WALStreamRequest{StartSequence: 0, ProtocolVersion: 1, CompressionSupported: false, ListenerAddress: listen})
+	st, err := cl.StreamWAL(ctx, &rp.WALStreamRequest{StartSequence: startSeq, ProtocolVersion: 1, CompressionSupported: startSeq > 0, ListenerAddress: listen})
 	if err != nil {
 		cancel()
 		conn.Close()
 		return nil, err
 	}
-	p := &rawPeer{conn: conn, cancel: cancel}
+	p := &rawPeer{conn: conn, cancel: cancel, stallAfter: 3}
 	if mode == "noread" {
 		return p, nil
 	}
@@ -95,6 +101,11 @@ func startRawPeer(addr, mode, listen string) (*rawPeer, error) {
 				return
 			}
 			p.recvd.Add(1)
+			if mode == "stall_after" && last > 0 && p.recvd.Load() >= int64(p.stallAfter) && len(m.Entries) < 100 {
+				// caught up (the last message was not a full catch-up chunk): from now on this peer reads nothing
+				<-ctx.Done()
+				return
+			}
 			for _, e := range m.Entries {
 				if e.SequenceNumber > last {
 					last = e.SequenceNumber
@@ -105,7 +116,7 @@ func startRawPeer(addr, mode, listen string) (*rawPeer, error) {
 			switch mode {
 			case "slow":
 				time.Sleep(time.Second)
-			case "ack":
+			case "ack", "stall_after":
 				cl.Acknowledge(actx, &rp.Ack{AcknowledgedUpTo: last})
 			case "nack":
 				// (the NACKs are sent by the separate goroutine below)
@@ -144,6 +155,9 @@ func runC15(c *core.Ctx, res *core.Result) {
 	// the write path) only runs when the log is synced
 	syncMode := []int{0, 2}[(c.Idx%len(scenarios)+c.Idx/len(scenarios)+1)%2]
 	cfg := kv.Cfg{MemTableSize: []int64{64 << 10, 32 << 20}[r.Intn(2)], MaxMemTables: 4, SyncMode: syncMode, CompactSecs: 3600}
+	if scen == "noread" && (c.Idx/len(scenarios))%2 == 1 {
+		cfg.MemTableSize = 32 << 20 // no log rotation: the primary's write-path observer stays attached to the log
+	}
 	pcfg := replication.DefaultPrimaryConfig()
 	hbTimeout := 2 * time.Second
 	pcfg.HeartbeatConfig = &replication.HeartbeatConfig{Interval: 500 * time.Millisecond, Timeout: hbTimeout, SendEmptyResponses: true}
@@ -159,7 +173,9 @@ func runC15(c *core.Ctx, res *core.Result) {
 		}
 	}()
 	feat := map[string]string{"scenario": scen, "healthy_peers": fmt.Sprint(healthy), "acking_peers_present": fmt.Sprint(healthy > 0)}
-	desc := fmt.Sprintf("scenario=%s healthy_peers=%d memtable=%d sync=%d", scen, healthy, cfg.MemTableSize, cfg.SyncMode)
+	// value size of the client's puts: pushes of different sizes take different paths on the primary
+	vsz := []int{4096, 1800, 700}[(c.Idx/len(scenarios)+c.Idx)%3]
+	desc := fmt.Sprintf("scenario=%s healthy_peers=%d memtable=%d sync=%d value_size=%d", scen, healthy, cfg.MemTableSize, cfg.SyncMode, vsz)
 	// fault-free baseline latency
 	t0 := time.Now()
 	for i := 0; i < 200; i++ {
@@ -203,7 +219,14 @@ func runC15(c *core.Ctx, res *core.Result) {
 			return
 		}
 	case "noread", "slow", "noack", "nack":
-		p, err := startRawPeer(paddr, scen, badListen)
+		var from uint64
+		if scen == "noread" && (c.Idx/len(scenarios))%2 == 1 {
+			// a peer that is up to date when it attaches (asks for the log from the primary's next sequence on) and
+			// never reads: its flow-control window is empty, so the primary's pushes on the write path - not the
+			// poller's catch-up - are what fills it
+			from = pn.eng.GetWAL().GetNextSequence()
+		}
+		p, err := startRawPeerFrom(paddr, scen, badListen, from)
 		if err != nil {
 			res.Inconclusive = "cannot attach the misbehaving peer: " + err.Error()
 			return
@@ -279,7 +302,7 @@ func runC15(c *core.Ctx, res *core.Result) {
 					err = e
 				}
 			default:
-				err = pn.eng.Put([]byte(fmt.Sprintf("w%04d", i)), make([]byte, 4096))
+				err = pn.eng.Put([]byte(fmt.Sprintf("w%04d", i)), make([]byte, vsz))
 			}
 			d := time.Since(t)
 			if int64(d) > worst.Load() {
@@ -314,13 +337,13 @@ loop:
 		// the primary is stuck: do not try to close it (Close would hang on the same locks)
 		stopped = true
 		res.Violate("primary_stalled", fmt.Sprintf("%s: the client workload on the primary stopped making progress for 10s after %d of %d calls (%d KB written; fault-free latency %.2f ms per 4KB put): a replica-side behaviour blocks the primary's write path\nblocked goroutines (kevo frames):\n%s",
-			desc, stalledAt, nops, stalledAt*4, float64(baseline)/1e6, blockedKevoStacks()), feat)
+			desc, stalledAt, nops, stalledAt*int64(vsz)/1024, float64(baseline)/1e6, blockedKevoStacks()), feat)
 		return
 	}
 	fwg.Wait()
 	res.Count("peer_sessions_flapped", flaps.Load())
 	res.Count("client_calls", int64(nops))
-	res.Count("kb_written", int64(nops*4))
+	res.Count("kb_written", int64(nops*vsz/1024))
 	if w := time.Duration(worst.Load()); w > 5*time.Second {
 		res.Violate("primary_call_slow", fmt.Sprintf("%s: one client call took %s (fault-free latency %.2f ms)", desc, w, float64(baseline)/1e6), feat)
 		return
@@ -380,14 +403,14 @@ loop:
 	}
 	for _, p := range peers[:min(healthy, len(peers))] {
 		if p.recvd.Load() == 0 {
-			res.Violate("healthy_peer_starved", fmt.Sprintf("%s: a healthy acknowledging peer received nothing while the primary wrote %d KB", desc, nops*4), feat)
+			res.Violate("healthy_peer_starved", fmt.Sprintf("%s: a healthy acknowledging peer received nothing while the primary wrote %d KB", desc, nops*vsz/1024), feat)
 			return
 		}
 	}
 	res.Sig = core.Sig(scen, healthy, nops, cfg.MemTableSize)
-	res.Nontrivial = nops*4 >= 1024
+	res.Nontrivial = nops*vsz/1024 >= 400
 	if c.Idx < 8 {
-		res.Sample = map[string]interface{}{"case": c.Idx, "scenario": scen, "healthy_peers": healthy, "client_calls": nops, "kb_written": nops * 4,
+		res.Sample = map[string]interface{}{"case": c.Idx, "scenario": scen, "healthy_peers": healthy, "client_calls": nops, "kb_written": nops * vsz / 1024,
 			"baseline_put_ms": float64(baseline) / 1e6, "worst_call_ms": float64(worst.Load()) / 1e6}
 	}
 }
